@@ -132,6 +132,33 @@ pub fn check_via_muxer(strings: &[Vec<u8>], obs: &mut Obs) -> Vec<Violation> {
     out
 }
 
+/// Whole-muxer view with an audio track: a recording of H.264/H.265 video and AAC audio in
+/// which some frames exceed 64 KiB (staging / batching thresholds); every stored sample must be
+/// exactly the re-framed input (length-prefixed units / the ADTS payload). Uses C01's resolver.
+pub fn check_av_muxer(r: &mut crate::util::Rng, obs: &mut Obs) -> Vec<Violation> {
+    use crate::exec::{run, ExecOpts};
+    use crate::gen::hist::{gen_cfg, gen_history_for, GenOpts};
+    let o = GenOpts { codecs: vec![H264, H265], hostile_pct: 0, reorder_pct: 20, audio_pct: 100, meta_pct: 0, encode_pct: 0, consuming: false, max_video: 6, max_audio: 8, big_frames: true, extreme_start_pct: 0, ..Default::default() };
+    let mut cfg = gen_cfg(r, &o);
+    cfg.audio = Some(AudioCfg { kind: 1, rate: 48_000, channels: 2 });
+    let h = gen_history_for(r, &o, cfg);
+    let (ex, sink) = run(&h, &ExecOpts::default());
+    if ex.any_panic() {
+        obs.inconclusive += 1;
+        return vec![];
+    }
+    let (bytes, events) = sink.with(|s| (s.bytes.clone(), s.events.clone()));
+    let a = super::Analysis::new(&h, &ex, &bytes, &events);
+    obs.count("av_recordings_through_the_muxer", 1);
+    obs.max("largest_frame_in_av_recordings", h.ops.iter().filter_map(|o| o.data()).map(|d| d.len() as u64).max().unwrap_or(0));
+    let mut scratch = Obs::default();
+    super::c01::check(&a, &mut scratch)
+        .into_iter()
+        .filter(|x| x.sig.contains("sample-bytes"))
+        .map(|x| v(format!("muxer-av|stored-sample|{}", if x.sig.contains("audio") { "audio" } else { "video" }), format!("{} :: {}", h.brief(), x.detail)))
+        .collect()
+}
+
 /// Constructive: NAL list known by construction (emulation-safe bodies), random start codes,
 /// leading garbage, trailing zeros.
 pub fn constructive(r: &mut crate::util::Rng, obs: &mut Obs) -> (Vec<u8>, Vec<Violation>) {
